@@ -238,26 +238,18 @@ func c07Deadlock(p *Program, r *Report) {
 				continue
 			}
 			nsites++
-			// Exemption (one, with reason): while a *mailbox's* own mutex is held, calls into EventStream.Publish are not followed.
-			// Subscribers are local actors (Subscribe registers ctx.Ref()), so the publish cannot re-enter the remoting
-			// send path (findMailbox's remote branch → MailboxCentral.lock); instance-insensitive lock identity cannot see that.
+			// Exemption (one, with reason): while a *mailbox's* own mutex is held, the traversal does not enter the remoting
+			// mailbox factory. Sends issued under a remoting mailbox's lock (handshake Ask to the local remoting server,
+			// events to local subscribers) target local refs, so the lookup's remote branch — the only way to the factory's
+			// lock — is not taken; instance- and value-insensitive lock identity cannot see that.
 			holdsMailboxLock := false
 			for h := range held {
 				if p.isMailboxLock(h) {
 					holdsMailboxLock = true
 				}
 			}
-			if holdsMailboxLock {
-				kept := callees[:0]
-				for _, cf := range callees {
-					if !p.isEventStreamPublish(cf) {
-						kept = append(kept, cf)
-					}
-				}
-				callees = kept
-			}
 			steps := p.closure(callees, cgOpts{ModuleOnly: true, MaxDepth: 2 * p.InlineBound, SkipEdge: func(e *callgraph.Edge) bool {
-				return p.isMailboxEnqueueDispatch(e) || (holdsMailboxLock && p.isEventStreamPublish(e.Callee.Func))
+				return p.isMailboxEnqueueDispatch(e) || (holdsMailboxLock && p.isRemoteMailboxFactory(e.Callee.Func))
 			}})
 			var fns []*ssa.Function
 			for f := range steps {
@@ -828,4 +820,21 @@ func (p *Program) isEventStreamPublish(fn *ssa.Function) bool {
 	}
 	es := p.Iface("", "EventStream")
 	return es != nil && implementsIface(fn.Signature.Recv().Type(), es)
+}
+
+// isRemoteMailboxFactory: a method returning an implementation of vivid.Mailbox from a keyed table (MailboxCentral.GetOrCreate).
+func (p *Program) isRemoteMailboxFactory(fn *ssa.Function) bool {
+	if fn == nil || fn.Signature.Recv() == nil || fn.Parent() != nil {
+		return false
+	}
+	res := fn.Signature.Results()
+	if res.Len() != 1 {
+		return false
+	}
+	mb := p.Iface("", "Mailbox")
+	if mb == nil || !implementsIface(res.At(0).Type(), mb) {
+		return false
+	}
+	_, isPtr := res.At(0).Type().(*types.Pointer)
+	return isPtr && fn.Signature.Params().Len() >= 1 && namedOf(fn.Signature.Recv().Type()) != namedOf(res.At(0).Type())
 }
